@@ -14,6 +14,9 @@ CLAIMS = {
  "C03": dict(engine="SYMX+CrossHair", text="(a) CrossHair confirms over all paths, for 4 records with symbolic time-step codes, that the two 'keeping' policies of the real prepare_records_with_inconsistent_dt retain exactly the records with the smallest / a most frequent time step in original order (reachability twins refuted); (b-d) SYMX runs process() end to end for solver-forked time-step patterns of 2-4 records, three policies and the three copies of the row bookkeeping (frequency-domain, single azimuth, RotDpp) plus azimuthal: per path the number of curves, the frequencies, equality (as terms) of every row with the row of that record processed alone at the same FFT length, also for the rotated list, and non-negativity are proved; (e) the Nyquist guard raises exactly when a (symbolic) centre frequency exceeds 1/(2 dt_max).",
    note="Bounds: 2-4 records, 2 (3) distinct time steps, 3 samples, n_fft 4 fixed via fft_settings, 2 centre frequencies. Same stubs as C01; 'finite' when the smoothed vertical spectrum is exactly zero is outside the claim (degenerate division paths are counted).",
    tech="CrossHair (z3) contracts on the real policy function + symbolic execution of process() with z3 row-equality queries", ref="2/C03"),
+ "C04": dict(engine="SYMX", text="Bounded model checking of the real orientation code on symbolic samples and symbolic (unbounded) angles with cos/sin uninterpreted plus Pythagoras and instantiated addition/periodicity identities: re-orientation is the clockwise-from-north rotation by (target - current) (energy preserving, vertical untouched, composable, invertible, bookkeeping updated, deployed angle stored modulo 360); polarised motion reappears on its azimuth after orienting to north; single_azimuth == north component after orient_sensor_to; 180-degree periodicity of single-azimuth HVSR; azimuthal result == stack of single-azimuth results; RotD_p <= RotD_q; per-bin |F ns|^2+|F ew|^2 invariant under any orientation and the squared-average / total-energy combine functions are functions of a^2+b^2 only (exact sqrt).",
+   note="Bounds: 2-3 samples, 2 azimuths, n_fft 4 (exact DFT), arbitrary taper. Trigonometric identities enter only as instances for the angle sums that occur (each justified by a separate linear-arithmetic query that the angle expressions coincide). Rounding of np.radians/cos/sin outside the claim. Full-pipeline rotation invariance is composed from the per-bin power lemma, the combine-function lemma and C01's structural identity.",
+   tech="symbolic execution with uninterpreted cosd/sind + instantiated trigonometric identities; z3 / nlsat queries", ref="2/C04"),
  "C05": dict(engine="SYMX", text="Bounded model checking of every statistic accessor of HvsrTraditional from an arbitrary valid state (symbolic curves and peaks, solver-forked accept/reject/no-peak status per window, three distribution spellings): per state the returned term is proved equal (unsat of the negation) to the textbook estimator over the accepted rows; frame condition on the symbols of rejected windows; reciprocal/symmetry consequences; a transition instance covers constructor + range update.",
    note="Bounds: 2-3 (quick) / 2-4 (thorough) windows, 2/3 frequencies. Floats read as reals; sqrt/exp/log uninterpreted with log(exp u)=u (argument equality is decided); np.cov runs numpy's own code via aweights=ones. States are constructed directly (one step from any valid state), transitions into those states are covered by C06/C08/C13.",
    tech="symbolic execution of the real source from an arbitrary valid state + z3 (NRA/UF) equality queries against textbook estimators", ref="2/C05"),
